@@ -1007,3 +1007,16 @@ Proof.
   - apply val_nodes. exact Hvp.
   - apply val_nodes. exact Hvn.
 Qed.
+
+(* ---------- any_append of an ordinary node is append ---------- *)
+
+Theorem any_append_plain st P b : Good st -> (cons st = true -> noadj st) -> structure_check st (Some P) b = true ->
+  erase (store (fst (m_any_append st P b))) = content (cons st) (plain_append st P b).
+Proof.
+  intros G Hcn Hsc. rewrite <- (append_plain st P b G Hcn Hsc).
+  destruct (structure_check_facts _ _ _ Hsc) as (_ & _ & (vb & Hvb & Hcok)).
+  unfold m_any_append. rewrite Hvb.
+  assert (is_normal vb = true) as Hn by (unfold child_ok in Hcok; apply andb_true_iff in Hcok; tauto).
+  destruct (m_append st P b) as [st1 o] eqn:E.
+  destruct vb; try discriminate Hn; destruct o; reflexivity.
+Qed.
